@@ -382,6 +382,20 @@ Definition opt_ed_eq (a b : option entity_descriptor) : bool :=
 Definition ed_obs (o : outcome entity_descriptor) : option entity_descriptor :=
   match o with Ok m => Some m | _ => None end.
 
+Definition binding_of_any (x : any_endpoint) : string :=
+  match x with EPlain e => ep_binding e | EIndexed e => ie_binding e end.
+
+(* an endpoint after one generation: unchanged when its binding is standard
+   (its locations were then accepted as http/https), blanked otherwise *)
+Definition ep_preserved (a b : string * any_endpoint) : bool :=
+  seqb (fst a) (fst b) &&
+  if standard (binding_of_any (snd a)) then any_eqb (snd a) (snd b)
+  else seqb (binding_of_any (snd a)) (binding_of_any (snd b)) &&
+       match snd b with
+       | EPlain e => negb (nonempty (ep_location e)) && negb (nonempty (ep_response e))
+       | EIndexed e => negb (nonempty (ie_location e)) && match ie_response e with None => true | Some _ => false end
+       end.
+
 Record mgcase := { mg_in : entity_descriptor; mg_gen1 : option entity_descriptor; mg_gen2 : option entity_descriptor }.
 Definition mgcase_agree (c : mgcase) : bool := opt_ed_eq (ed_obs (norm (mg_in c))) (mg_gen1 c).
 (* the implementation's first generation is a fixed point of the implementation *)
@@ -392,6 +406,7 @@ Definition mgcase_spec (c : mgcase) : bool :=
                && (ed_valid_until m1 =? round_ms (ed_valid_until (mg_in c)))
                && (ed_cache_duration m1 =? ed_cache_duration (mg_in c))
                && list_eqb (fun x y => seqb (fst x) (fst y) && kd_eqb (snd x) (snd y)) (ed_keys m1) (ed_keys (mg_in c))
+               && list_eqb ep_preserved (ed_endpoints (mg_in c)) (ed_endpoints m1)
   | None => true
   end.
 Definition check_mgcases := check_cases mgcase_agree mgcase_spec.
